@@ -91,11 +91,27 @@ def tla_to_py(txt):
 
 
 def split_dump(path):
-    """Yield the text of each state of a TLC -dump file."""
+    """The texts of all states of a TLC -dump file (small dumps)."""
+    return list(iter_dump(path))
+
+
+def iter_dump(path):
+    """Stream the states of a TLC -dump file (dumps of millions of states do not fit comfortably in memory)."""
+    cur = []
     with open(path) as f:
-        data = f.read()
-    parts = re.split(r"^State \d+:\n", data, flags=re.M)
-    return [p for p in parts if p.strip()]
+        for line in f:
+            if line.startswith("State ") and line.rstrip().endswith(":") and line[6:-2].strip().isdigit():
+                if cur:
+                    t = "".join(cur)
+                    if t.strip():
+                        yield t
+                cur = []
+            else:
+                cur.append(line)
+    if cur:
+        t = "".join(cur)
+        if t.strip():
+            yield t
 
 
 def split_sim_traces(prefix_dir, prefix="tr"):
